@@ -10,6 +10,15 @@ pub struct Arena {
     base: *mut u8,
     usable: usize,
     total: usize,
+    /// VERIF_ASAN=1: every placement is its own exactly sized heap allocation, so that
+    /// AddressSanitizer sees byte-accurate bounds on the right side (and `off` bytes slack on the left)
+    heap: bool,
+    cur: *mut u8,
+    cur_layout: Option<std::alloc::Layout>,
+}
+
+pub fn asan_mode() -> bool {
+    std::env::var("VERIF_ASAN").map(|v| v == "1").unwrap_or(false)
 }
 
 unsafe impl Send for Arena {}
@@ -34,7 +43,14 @@ impl Arena {
             core::ptr::write_bytes(base, CANARY, usable);
             let r = libc::mprotect(base.add(usable) as *mut _, page, libc::PROT_NONE);
             assert_eq!(r, 0, "mprotect failed");
-            Arena { base, usable, total }
+            Arena { base, usable, total, heap: asan_mode(), cur: core::ptr::null_mut(), cur_layout: None }
+        }
+    }
+
+    fn release_heap(&mut self) {
+        if let Some(l) = self.cur_layout.take() {
+            unsafe { std::alloc::dealloc(self.cur, l) };
+            self.cur = core::ptr::null_mut();
         }
     }
 
@@ -42,6 +58,17 @@ impl Arena {
     /// page as that allows; its bytes are set to `fill`.
     pub fn place(&mut self, len: usize, off: usize, fill: u8) -> Slot<'_> {
         let off = off % ALIGN_BASE;
+        if self.heap {
+            self.release_heap();
+            let layout = std::alloc::Layout::from_size_align((off + len).max(1), ALIGN_BASE).unwrap();
+            let p = unsafe { std::alloc::alloc(layout) };
+            assert!(!p.is_null());
+            unsafe { core::ptr::write_bytes(p, CANARY, off + len) };
+            unsafe { core::ptr::write_bytes(p.add(off), fill, len) };
+            self.cur = p;
+            self.cur_layout = Some(layout);
+            return Slot { arena: self, start: off, len };
+        }
         let end_max = self.base as usize + self.usable;
         let mut k = 0;
         while (end_max - k - len) % ALIGN_BASE != off {
@@ -58,6 +85,7 @@ impl Arena {
 
 impl Drop for Arena {
     fn drop(&mut self) {
+        self.release_heap();
         unsafe {
             libc::munmap(self.base as *mut _, self.total);
         }
@@ -71,17 +99,35 @@ pub struct Slot<'a> {
 }
 
 impl<'a> Slot<'a> {
+    fn base(&self) -> *mut u8 {
+        if self.arena.heap {
+            self.arena.cur
+        } else {
+            self.arena.base
+        }
+    }
     pub fn bytes(&self) -> &[u8] {
-        unsafe { core::slice::from_raw_parts(self.arena.base.add(self.start), self.len) }
+        unsafe { core::slice::from_raw_parts(self.base().add(self.start), self.len) }
     }
     pub fn bytes_mut(&mut self) -> &mut [u8] {
-        unsafe { core::slice::from_raw_parts_mut(self.arena.base.add(self.start), self.len) }
+        unsafe { core::slice::from_raw_parts_mut(self.base().add(self.start), self.len) }
     }
     pub fn addr(&self) -> usize {
-        self.arena.base as usize + self.start
+        self.base() as usize + self.start
     }
     pub fn len(&self) -> usize {
         self.len
+    }
+    /// Overwrite the bytes between the end of the slice and the guard page (at most 63) with `fill`
+    /// (differential monitor for over-reads: a verdict must not depend on them). Returns how many.
+    pub fn set_after(&mut self, fill: u8) -> usize {
+        if self.arena.heap {
+            return 0;
+        }
+        let from = self.start + self.len;
+        let n = self.arena.usable - from;
+        unsafe { core::ptr::write_bytes(self.arena.base.add(from), fill, n) };
+        n
     }
     /// Is the pointer range inside the slice?
     pub fn contains(&self, addr: usize, len: usize) -> bool {
@@ -90,6 +136,19 @@ impl<'a> Slot<'a> {
     /// Verify the canaries around the slice; repairs them and reports the first damaged offset
     /// (relative to the slice start; negative = before it).
     pub fn check(&mut self) -> Result<(), String> {
+        if self.arena.heap {
+            // the sanitizer is the monitor on the right side; the left slack is checked here
+            let mut bad = None;
+            for i in 0..self.start {
+                if unsafe { *self.base().add(i) } != CANARY {
+                    bad.get_or_insert(i as isize - self.start as isize);
+                }
+            }
+            return match bad {
+                None => Ok(()),
+                Some(o) => Err(format!("write outside the slice at relative offset {} (slice len {})", o, self.len)),
+            };
+        }
         let mut bad: Option<isize> = None;
         unsafe {
             let lo = self.start - PRE;
@@ -117,6 +176,9 @@ impl<'a> Slot<'a> {
 
 impl<'a> Drop for Slot<'a> {
     fn drop(&mut self) {
+        if self.arena.heap {
+            return;
+        }
         // leave the arena all-canary for the next placement
         unsafe {
             core::ptr::write_bytes(self.arena.base.add(self.start), CANARY, self.len);
